@@ -1137,6 +1137,11 @@ func (w *worker) runCombine(ctx context.Context, task *Task, taskStats *stats.Ma
 		w.mu.Lock()
 		w.combinerStates[combineKey]--
 		w.mu.Unlock()
+		if e := recover(); e != nil {
+			// The user's combiner panicked: do not commit the partially
+			// combined buffer; (*worker).Run reports the panic.
+			panic(e)
+		}
 		if err == nil && task.CombineKey == "" {
 			taskWriteDuration := taskStats.Int("writeDuration")
 			start := time.Now()
@@ -1196,8 +1201,7 @@ func (w *worker) runCombine(ctx context.Context, task *Task, taskStats *stats.Ma
 			}
 
 			flushed := pcomb.Compact()
-			combErr := combiner.Combine(ctx, flushed)
-			combiners[p] <- combiner
+			combErr := combineAndRelease(ctx, combiners[p], combiner, flushed)
 			if combErr != nil {
 				return combErr
 			}
@@ -1211,13 +1215,21 @@ func (w *worker) runCombine(ctx context.Context, task *Task, taskStats *stats.Ma
 	// Flush the remainder.
 	for p, comb := range partitionCombiner {
 		combiner := <-combiners[p]
-		err := combiner.Combine(ctx, comb.Compact())
-		combiners[p] <- combiner
+		err := combineAndRelease(ctx, combiners[p], combiner, comb.Compact())
 		if err != nil {
 			return err
 		}
 	}
 	return nil
+}
+
+// combineAndRelease combines f into combiner and hands the combiner back
+// to its channel, also if the (user-provided) combine function panics:
+// a combiner that is never returned deadlocks every later user of the
+// channel, including writeCombiner, which waits for it holding w.mu.
+func combineAndRelease(ctx context.Context, c chan *combiner, combiner *combiner, f frame.Frame) error {
+	defer func() { c <- combiner }()
+	return combiner.Combine(ctx, f)
 }
 
 func (w *worker) Stats(ctx context.Context, _ struct{}, values *stats.Values) error {
